@@ -220,7 +220,7 @@ func (ck *Check) isLockedCall(t *Term, g *Term) bool {
 
 func checkC02(ck *Check) {
 	a := ck.A
-	if !ck.need("C02.R1", map[string]interface{}{"scan": a.Scan, "lock": a.Lock, "locked": a.Locked, "unlock": a.Unlock, "ScaleUp": a.ScaleUp, "cloud step": a.CloudStep}) {
+	if !ck.need("C02.R1", map[string]interface{}{"scan": a.Scan, "lock": a.Lock, "locked": a.Locked, "ScaleUp": a.ScaleUp, "cloud step": a.CloudStep}) {
 		return
 	}
 	// R1
@@ -253,18 +253,24 @@ func checkC02(ck *Check) {
 	// R3 (continued): nothing else releases or forges the lock
 	{
 		var bad []string
-		for _, c := range ck.P.callers[a.Unlock] {
-			if c != a.Locked {
-				bad = append(bad, funcID(c))
+		if a.Unlock != nil {
+			for _, c := range ck.P.callers[a.Unlock] {
+				if c != a.Locked {
+					bad = append(bad, funcID(c))
+				}
 			}
 		}
-		ck.cond(len(bad) == 0, "C02.R3", "unlock/callers", "", funcID(a.Unlock), "unlock() is called only from locked() (after the cool-down elapsed)", strings.Join(bad, ", "), "the lock can be released inside the cool-down by "+strings.Join(bad, ", "))
+		unlockID := "(merged into locked)"
+		if a.Unlock != nil {
+			unlockID = funcID(a.Unlock)
+		}
+		ck.cond(len(bad) == 0, "C02.R3", "unlock/callers", "", unlockID, "unlock() is called only from locked() (after the cool-down elapsed)", strings.Join(bad, ", "), "the lock can be released inside the cool-down by "+strings.Join(bad, ", "))
 		fIsLocked := field(a.TLock, "isLocked")
 		n := 0
 		for _, fn := range ck.P.Funcs {
 			for _, b := range fn.Blocks {
 				for _, in := range b.Instrs {
-					if st, ok := in.(*ssa.Store); ok && fieldOfAddr(st.Addr) == fIsLocked && fn != a.Lock && fn != a.Unlock {
+					if st, ok := in.(*ssa.Store); ok && fieldOfAddr(st.Addr) == fIsLocked && fn != a.Lock && fn != a.Unlock && !(a.Unlock == nil && fn == a.Locked) {
 						n++
 						ck.fail("C02.R3", funcID(fn)+"/isLocked-store", ck.P.instrPos(st), funcID(fn), "isLocked is written only by lock() and unlock()", "", "the lock state is changed behind the lock's back")
 					}
@@ -486,7 +492,7 @@ func (ck *Check) lockBodies(rule string) {
 		_ = clock
 	}
 	// unlock(): post-state isLocked = false on all paths
-	{
+	if a.Unlock != nil {
 		fn := a.Unlock
 		ctx := ck.P.NewCtx(fn)
 		recv := paramTerm(fn.Params[0])
@@ -524,7 +530,10 @@ func (ck *Check) lockBodies(rule string) {
 		} else {
 			okv := true
 			var why []string
-			unlockCalls := callsTo(fn, a.Unlock)
+			var unlockCalls []ssa.CallInstruction
+			if a.Unlock != nil {
+				unlockCalls = callsTo(fn, a.Unlock)
+			}
 			for _, b := range fn.Blocks {
 				r, ok := b.Instrs[len(b.Instrs)-1].(*ssa.Return)
 				if !ok {
@@ -560,13 +569,29 @@ func (ck *Check) lockBodies(rule string) {
 					}
 				}
 			}
-			// no store of isLocked in locked itself
+			// locked() itself may only clear the flag, and only outside the window (unlock merged in)
 			for _, b := range fn.Blocks {
 				for _, in := range b.Instrs {
 					if st, ok := in.(*ssa.Store); ok && fieldOfAddr(st.Addr) == fIsLocked {
-						okv = false
-						why = append(why, "locked() writes isLocked directly")
+						k, isC := st.Val.(*ssa.Const)
+						clears := isC && k.Value != nil && k.Value.String() == "false"
+						outside, _, _ := Entails(ctx.PC(st), Not(Atom(elapsed)))
+						if !(clears && outside) {
+							okv = false
+							why = append(why, "locked() writes isLocked other than clearing it after the cool-down")
+						}
 					}
+				}
+			}
+			if a.Unlock == nil {
+				// without a separate unlock(): outside the window the flag is false when locked() returns
+				post, _, err := ctx.boolFieldExit(recv, fIsLocked)
+				if err != nil {
+					okv = false
+					why = append(why, "exit state of isLocked not determined: "+err.Error())
+				} else if imp, _, _ := Entails(post, Atom(elapsed)); !imp {
+					okv = false
+					why = append(why, "after the cool-down locked() can return with the flag still set")
 				}
 			}
 			ck.cond(okv, rule, "locked/release", ck.P.position(fn.Pos()), funcID(fn), "locked() ⇒ time.Since(lockTime) < minimumLockDuration (the lock cannot outlive its cool-down)", ctx.returnFormula(0).String(), strings.Join(why, "; "))
